@@ -108,3 +108,47 @@ func isolationLater(o *Out) {
 		}
 	}()
 }
+
+// isolationCopies: a deep copy of a scope that is not the outermost one (a child scope, a module, a block below them) is an
+// environment of its own for GLOBAL definitions too: what the host - or a run - defines globally through the copy lands in
+// the copy's own outermost scope and nowhere in the environment it was copied from, and the other way round.
+func isolationCopies(o *Out) {
+	root := env.NewEnv()
+	_ = root.Define("g0", int64(0))
+	child := root.NewEnv()
+	mod, _ := root.NewModule("m")
+	block := child.NewEnv()
+	for name, src := range map[string]*env.Env{"a child scope": child, "a module": mod, "a block below a child scope": block} {
+		dc := src.DeepCopy()
+		under := dc.NewEnv()
+		var msgs []string
+		_ = dc.DefineGlobal("leakV", int64(1))
+		_ = under.DefineGlobal("leakU", int64(2))
+		_ = dc.DefineGlobalType("LeakT", int64(0))
+		_ = src.DefineGlobal("origOnly", int64(3))
+		if v, err := root.Get("leakV"); err == nil {
+			msgs = append(msgs, fmt.Sprint("DefineGlobal on the copy is visible in the original environment: leakV = ", v))
+		}
+		if v, err := root.Get("leakU"); err == nil {
+			msgs = append(msgs, fmt.Sprint("DefineGlobal on a scope opened under the copy is visible in the original environment: leakU = ", v))
+		}
+		if _, err := root.Type("LeakT"); err == nil {
+			msgs = append(msgs, "DefineGlobalType on the copy is visible in the original environment")
+		}
+		if v, err := dc.Get("leakV"); err != nil || v != int64(1) {
+			msgs = append(msgs, fmt.Sprint("the copy does not see its own global definition: ", v, " ", err))
+		}
+		if v, err := under.Get("leakU"); err != nil || v != int64(2) {
+			msgs = append(msgs, fmt.Sprint("the scope under the copy does not see its own global definition: ", v, " ", err))
+		}
+		if _, err := dc.Get("origOnly"); err == nil {
+			msgs = append(msgs, "a global definition made in the original after the copy was taken is visible in the copy")
+		}
+		o.Sum.Evaluations++
+		o.Sum.Hist["deep-copy-global-definitions"]++
+		root.Delete("origOnly")
+		for _, m := range msgs {
+			o.Fail(Failure{Oracle: "environments-isolated", Key: "env-leak:deepcopy-global", Input: "root > child > block, root > module m; dc = DeepCopy of " + name + "; dc.DefineGlobal(leakV), dc.NewEnv().DefineGlobal(leakU), dc.DefineGlobalType(LeakT), original.DefineGlobal(origOnly)", Detail: m})
+		}
+	}
+}
